@@ -44,23 +44,24 @@ def run(ctx: Ctx):
         oks = norm(st.func.value.slice) == dvar and st.args and norm(st.args[0]) == f"{avar}.name"
     ctx.check(oks, "R12.a", dep.key("record"), "dependents[dependency].add(assignment.name)", "ODE.dependents does not record dependents[dependency].add(assignment.name)", dep.where())
 
+    from sa import av as _av
+
+    from . import util
+
     init = cgc.methods["__init__"]
-    lambdas = []
-    for n in ast.walk(init.node):
-        if isinstance(n, ast.Assign) and norm(n.targets[0]) == "self._condition" and isinstance(n.value, ast.Lambda):
-            chain = common.cond_chain(init.node, n) or []
-            lambdas.append((chain, n.value, n))
-    okc = False
-    deps_src = None
-    for n in ast.walk(init.node):
-        if isinstance(n, ast.Assign) and norm(n.targets[0]) == "self.deps":
-            deps_src = norm(n.value)
-    on = [l for c, l, _ in lambdas if ("remove_unused", True) in c]
-    off = [l for c, l, _ in lambdas if ("remove_unused", False) in c]
-    if on and off:
-        p = on[0].args.args[0].arg
-        okc = norm(on[0].body) == f"{p} in self.deps" and norm(off[0].body) == "True" and deps_src == "self.ode.dependents()"
-    ctx.check(okc, "R12.a", init.key("_condition"), "_condition = (name in ode.dependents()) when remove_unused else True", f"CodeGenerator.__init__: the liveness predicate is not `x in self.ode.dependents()` / `True` (deps = {deps_src}, lambdas = {[norm(l) for _, l, _ in lambdas]})", init.where())
+    A_ = util.AV(ctx)
+    live = A_.expr("self._condition(x)", env={"self": ("sym", "self"), "x": ("sym", "X")}, func=cgc.methods["rhs"])
+    _iv, ienv = A_.returned(init)
+    deps_attr = ienv.get("self.deps")
+    deps_ok_terms = [("mcall", ("sym", "self.ode"), "dependents", (), ())]
+    if deps_attr is not None and deps_attr[0] == "if" and deps_attr[1] == ("sym", "remove_unused") and deps_attr[2] == ("mcall", ("sym", "ode"), "dependents", (), ()) and ienv.get("self.ode") == ("sym", "ode"):
+        deps_ok_terms.append(("sym", "self.deps"))
+    LIVE = [_av.mk_if(("sym", "self.remove_unused"), ("cmp", "in", ("sym", "X"), dt_), _av.C(True)) for dt_ in deps_ok_terms]
+    vd = util.verdict(live, LIVE)
+    if vd == "unknown" or (live[0] == "mcall" and live[2] == "_condition"):
+        ctx.undecided("R12.a", init.key("_condition"), f"the liveness predicate self._condition is not understood ({_av.show(live)[:100]})", init.where())
+    else:
+        ctx.check(vd == "ok" and ienv.get("self.remove_unused") == ("sym", "remove_unused"), "R12.a", init.key("_condition"), "_condition = (name in ode.dependents()) when remove_unused else True", f"CodeGenerator: the liveness predicate is `{_av.show(live)[:140]}`, not `name in self.ode.dependents()` when remove_unused else True", init.where())
 
     from . import util
 
@@ -90,14 +91,31 @@ def run(ctx: Ctx):
             a = calls[0].args[1]
         got = norm(a) if a is not None else None
         ctx.check(got == want_arg, "R12.b", f.key("state-unpacking"), f"_state_assignments(remove_unused={want_arg})", f"CodeGenerator.{mname} unpacks the states with remove_unused={got}; expected {want_arg} (schemes and monitors read every state symbol)", f.where(calls[0]))
+    from .c04 import _single_comp
+
+    def live_of(bvname):
+        return [_av.subst(t_, {("sym", "X"): bvname}) for t_ in LIVE] + [("mcall", ("sym", "self"), "_condition", (bvname,), ())]
+
     sassign = cgc.methods["_state_assignments"]
-    gens = [n for n in ast.walk(sassign.node) if isinstance(n, (ast.GeneratorExp, ast.ListComp))]
-    okg = bool(gens) and gens[0].generators[0].ifs and norm(gens[0].generators[0].ifs[0]) in ("not remove_unused or self._condition(state.name)", "self._condition(state.name) or not remove_unused")
-    ctx.check(okg, "R12.b", sassign.key("filter"), "a state is skipped only if remove_unused and its name has no dependents", "CodeGenerator._state_assignments: the filter is not `not remove_unused or self._condition(state.name)`", sassign.where())
+    sv_ = util.value_of(ctx, sassign)
+    cp = _single_comp(sv_) if not _av.has_unk(sv_) else None
+    if cp is None:
+        ctx.undecided("R12.b", sassign.key("filter"), "what _state_assignments builds is not understood", sassign.where())
+    else:
+        nm = ("attr", ("bv", cp[1]), "name")
+        ru = ("sym", sassign.params[2]) if len(sassign.params) > 2 else ("sym", "remove_unused")
+        wants = [_av.mk_not(_av.mk_and(ru, _av.mk_not(l_))) for l_ in live_of(nm)]
+        okg = len(cp[4]) == 1 and cp[4][0] in wants
+        ctx.check(okg, "R12.b", sassign.key("filter"), "a state is skipped only if remove_unused and its name has no dependents", f"CodeGenerator._state_assignments keeps a state iff `{_av.show(cp[4][0])[:140] if cp[4] else 'always'}`, not iff `not remove_unused or <its name has dependents>`", sassign.where())
     passign = cgc.methods["_parameter_assignments"]
-    gens = [n for n in ast.walk(passign.node) if isinstance(n, (ast.GeneratorExp, ast.ListComp))]
-    okp = bool(gens) and gens[0].generators[0].ifs and norm(gens[0].generators[0].ifs[0]) == "self._condition(param.name)"
-    ctx.check(okp, "R12.b", passign.key("filter"), "a parameter is skipped only if its name has no dependents", "CodeGenerator._parameter_assignments: the filter is not `self._condition(param.name)`", passign.where())
+    pv_ = util.value_of(ctx, passign)
+    cp = _single_comp(pv_) if not _av.has_unk(pv_) else None
+    if cp is None:
+        ctx.undecided("R12.b", passign.key("filter"), "what _parameter_assignments builds is not understood", passign.where())
+    else:
+        nm = ("attr", ("bv", cp[1]), "name")
+        okp = len(cp[4]) == 1 and cp[4][0] in live_of(nm)
+        ctx.check(okp, "R12.b", passign.key("filter"), "a parameter is skipped only if its name has no dependents", f"CodeGenerator._parameter_assignments keeps a parameter iff `{_av.show(cp[4][0])[:140] if cp[4] else 'always'}`, not iff <its name has dependents (when remove_unused)>", passign.where())
     # purity: no memoisation keyed on less than the arguments
     for mname, f in cgc.methods.items():
         if mname == "__init__":
